@@ -37,7 +37,8 @@ from pyint import Unsupported, mangle
 EXC = {'ValueError': '.py .valueError', 'TypeError': '.py .typeError', 'IndexError': '.py .indexError'}
 ANN = {'int': 'int', 'str': 'str', 'bool': 'bool'}
 LEAN_T = {'int': 'Int', 'str': 'Str', 'bool': 'Bool', 'optpoint': 'Option Point', 'obj': 'AStr',
-          'slist': 'List Setting', 'setting': 'Setting', 'point': 'Point', 'optslist': 'Option (List Setting)'}
+          'slist': 'List Setting', 'setting': 'Setting', 'point': 'Point', 'optslist': 'Option (List Setting)',
+          'pairs': 'List (Nat × Nat)', 'fmtitems': 'Fmts'}
 
 
 class Sig:
@@ -153,6 +154,52 @@ class M:
             return 'with_assertions', 'bool'
         if isinstance(e, ast.List) and not e.elts:
             return '([] : List Setting)', 'slist'
+        if isinstance(e, ast.Subscript) and isinstance(e.slice, ast.Slice) and e.slice.step is None:
+            a, ta = self.ex(e.value, env)
+            if ta == 'slist':
+                lo = '(none : Option Int)' if e.slice.lower is None else '(some %s)' % self.typed(e.slice.lower, env, 'int')
+                hi = '(none : Option Int)' if e.slice.upper is None else '(some %s)' % self.typed(e.slice.upper, env, 'int')
+                return '(Py.listSlice %s %s %s)' % (a, lo, hi), 'slist'
+            raise Unsupported(ast.unparse(e))
+        if isinstance(e, ast.Subscript) and not isinstance(e.slice, ast.Slice) and self.is_fmts(e.value, env):
+            v = self.point_read(e, env)
+            if v:
+                return v, 'point'
+        if isinstance(e, ast.Call) and isinstance(e.func, ast.Name) and e.func.id == 'any' and len(e.args) == 1 and not e.keywords \
+                and isinstance(e.args[0], ast.GeneratorExp):
+            g = e.args[0]
+            env2 = dict(env)
+            layers = []
+            before = len(self.pending)
+            for gen in g.generators:
+                if gen.is_async:
+                    raise Unsupported(ast.unparse(e))
+                src, ts = self.ex(gen.iter, env2)
+                if ts == 'slist' and isinstance(gen.target, ast.Name):
+                    pat = mangle(gen.target.id); env2[gen.target.id] = 'setting'
+                elif ts == 'fmtitems' and isinstance(gen.target, ast.Tuple) and len(gen.target.elts) == 3 \
+                        and all(isinstance(x, ast.Name) for x in gen.target.elts):
+                    k_, a_, r_ = [x.id for x in gen.target.elts]
+                    src = '(%s.map (fun kp_ => ((kp_.1 : Int), kp_.2.add, kp_.2.rem)))' % src
+                    pat = '(%s, %s, %s)' % (mangle(k_), mangle(a_), mangle(r_))
+                    env2[k_] = 'int'; env2[a_] = 'slist'; env2[r_] = 'slist'
+                else:
+                    raise Unsupported(ast.unparse(e))
+                conds = [self.b(c, env2) for c in gen.ifs]
+                layers.append((src, pat, conds))
+            body = self.b(g.elt, env2)
+            bound = set()
+            for gen in g.generators:
+                for x in ast.walk(gen.target):
+                    if isinstance(x, ast.Name):
+                        bound.add(mangle(x.id))
+            for v, x in self.pending[before:]:
+                if bound & set(x.replace('.', ' ').replace('(', ' ').replace(')', ' ').split()):
+                    raise Unsupported('a hoisted read depends on a generator variable')
+            for src, pat, conds in reversed(layers):
+                inner = ' && '.join(conds + [body])
+                body = '(%s.any (fun %s => %s))' % (src, pat, inner)
+            return body, 'bool'
         if isinstance(e, ast.Subscript) and not isinstance(e.slice, ast.Slice) and not self.is_fmts(e.value, env):
             a, ta = self.ex(e.value, env)
             if ta == 'slist':
@@ -223,6 +270,13 @@ class M:
                 a = self.typed(e.args[0], env, 'setting')
                 b_ = self.typed(e.args[1], env, 'slist')
                 return '(findSettingReference %s %s)' % (a, b_), 'int'
+            if isinstance(f, ast.Attribute) and f.attr in ('_same_setting_references', '_find_settings_references') and len(e.args) == 2 \
+                    and isinstance(f.value, ast.Name) and f.value.id in ('__class__', 'AnsiString', 'self'):
+                a = self.typed(e.args[0], env, 'slist')
+                b_ = self.typed(e.args[1], env, 'slist')
+                if f.attr == '_same_setting_references':
+                    return '(sameSettingReferences %s %s)' % (a, b_), 'bool'
+                return '(findSettingsReferences %s %s)' % (a, b_), 'pairs'
             if isinstance(f, ast.Attribute) and f.attr == 'ansi_settings_at' and len(e.args) == 1:
                 o = self.obj_of(f.value, env)
                 if o:
@@ -269,6 +323,9 @@ class M:
                 return '(decide (%s %s %s))' % (a, ops[type(o)], b_), 'bool'
             if isinstance(o, (ast.Eq, ast.NotEq)) and ta == tb and ta in ('str', 'bool'):
                 return '(%s %s %s)' % (a, '==' if isinstance(o, ast.Eq) else '!=', b_), 'bool'
+            if isinstance(o, (ast.Eq, ast.NotEq)) and ta == tb == 'slist':
+                # list equality is element-wise `==`, and AnsiSetting.__eq__ compares the text
+                return '(texts %s %s texts %s)' % (a, '==' if isinstance(o, ast.Eq) else '!=', b_), 'bool'
         raise Unsupported(ast.unparse(e))
 
     def b(self, e, env):
@@ -277,6 +334,10 @@ class M:
             return '(!(%s).isEmpty)' % a
         if t == 'optslist':
             return '(Py.truthyOptList %s)' % a
+        if t == 'pairs':
+            return '(!(%s).isEmpty)' % a
+        if t == 'point':
+            return '(pointBool %s)' % a                   # _AnsiSettingPoint.__bool__, translated in Wrappers.lean
         if t != 'bool':
             raise Unsupported('truth value of a %s: %s' % (t, ast.unparse(e)))
         return a
@@ -473,6 +534,28 @@ class M:
                         pt = self.typed(v, env, 'point')
                         pre = self.pre(p)
                         return ('%s%s(Obj.set %s.fmts %s %s).bind fun f_ =>\n%s%s' % (pre, p, d, key, pt, upd, K(env, ind)))
+            # O._fmts[k].rem = <list>
+            if isinstance(t, ast.Attribute) and t.attr in ('add', 'rem') and isinstance(t.value, ast.Subscript) \
+                    and not isinstance(t.value.slice, ast.Slice):
+                d = self.is_fmts(t.value.value, env)
+                if d:
+                    key = self.typed(t.value.slice, env, 'int')
+                    new = self.typed(v, env, 'slist')
+                    pre = self.pre(p)
+                    return ('%s%s(Obj.modifyAt %s.fmts %s (fun q_ => { q_ with %s := %s })).bind fun f_ =>\n%slet %s : AStr := { %s with fmts := f_ }\n%s'
+                            % (pre, p, d, key, t.attr, new, p, d, d, K(env, ind)))
+            # O._fmts[k].rem[i] = <setting>
+            if isinstance(t, ast.Subscript) and not isinstance(t.slice, ast.Slice) and isinstance(t.value, ast.Attribute) \
+                    and t.value.attr in ('add', 'rem') and isinstance(t.value.value, ast.Subscript) and not isinstance(t.value.value.slice, ast.Slice):
+                d = self.is_fmts(t.value.value.value, env)
+                if d:
+                    key = self.typed(t.value.value.slice, env, 'int')
+                    i = self.typed(t.slice, env, 'int')
+                    x = self.typed(v, env, 'setting')
+                    pre = self.pre(p)
+                    fld = t.value.attr
+                    return ('%s%s(Obj.get %s.fmts %s).bind fun q_ =>\n%s(Py.setIdx q_.%s %s %s).bind fun l_ =>\n%s(Obj.set %s.fmts %s { q_ with %s := l_ }).bind fun f_ =>\n%slet %s : AStr := { %s with fmts := f_ }\n%s'
+                            % (pre, p, d, key, p, fld, i, x, p, d, key, fld, p, d, d, K(env, ind)))
             # O._fmts[k].add[lo:hi] = <list>
             if isinstance(t, ast.Subscript) and isinstance(t.slice, ast.Slice) and t.slice.step is None \
                     and isinstance(t.value, ast.Attribute) and t.value.attr in ('add', 'rem') and isinstance(t.value.value, ast.Subscript) \
@@ -488,6 +571,13 @@ class M:
                     return ('%s%s(Obj.modifyAt %s.fmts %s (fun q_ => { q_ with %s := Py.sliceAssign q_.%s %s %s %s })).bind fun f_ =>\n%slet %s : AStr := { %s with fmts := f_ }\n%s'
                             % (pre, p, d, key, fld, fld, lo, hi, new, p, d, d, K(env, ind)))
             raise Unsupported(ast.unparse(st))
+        if isinstance(st, ast.Delete) and len(st.targets) == 1 and isinstance(st.targets[0], ast.Subscript) \
+                and not isinstance(st.targets[0].slice, ast.Slice) and self.is_fmts(st.targets[0].value, env):
+            d = self.is_fmts(st.targets[0].value, env)
+            key = self.typed(st.targets[0].slice, env, 'int')
+            pre = self.pre(p)
+            return ('%s%s(Obj.del %s.fmts %s).bind fun f_ =>\n%slet %s : AStr := { %s with fmts := f_ }\n%s'
+                    % (pre, p, d, key, p, d, d, K(env, ind)))
         if isinstance(st, ast.Delete) and len(st.targets) == 1 and isinstance(st.targets[0], ast.Subscript) \
                 and not isinstance(st.targets[0].slice, ast.Slice):
             a, ty = self.ex(st.targets[0].value, env)
@@ -573,6 +663,11 @@ class M:
                 and isinstance(st.iter.func, ast.Name) and st.iter.func.id == '_AnsiSettingsIterator' and len(st.iter.args) == 1 \
                 and not st.iter.keywords and 'iterStep' in self.sigs:
             return self.iter_loop(st, env, K, ind)
+        if isinstance(st, ast.For) and not st.orelse and isinstance(st.target, ast.Tuple):
+            return self.general_loop(st, env, K, ind)
+        if isinstance(st, ast.For) and not st.orelse and isinstance(st.target, ast.Name) \
+                and any(isinstance(n, ast.Continue) for n in ast.walk(ast.Module(body=st.body, type_ignores=[]))):
+            return self.general_loop(st, env, K, ind)
         if isinstance(st, ast.For) and not st.orelse and isinstance(st.target, ast.Name):
             it = st.iter
             for n in ast.walk(ast.Module(body=st.body, type_ignores=[])):
@@ -693,28 +788,62 @@ class M:
         elem = None
         rev = False
         rng = it
+        benv = dict(env)
         if isinstance(it, ast.Call) and isinstance(it.func, ast.Name) and it.func.id == 'reversed' and len(it.args) == 1 and not it.keywords:
             rev, rng = True, it.args[0]
-        if isinstance(rng, ast.Call) and isinstance(rng.func, ast.Name) and rng.func.id == 'range' and len(rng.args) == 1 and not rng.keywords:
+        tgt = st.target
+        if isinstance(tgt, ast.Tuple):
+            if not all(isinstance(x_, ast.Name) and x_.id not in env for x_ in tgt.elts):
+                raise Unsupported('loop target')
+            a, ta = self.ex(rng, env)
+            nm = [x_.id for x_ in tgt.elts]
+            if ta == 'fmtitems' and len(nm) == 3 and not rev:
+                src = '(%s.map (fun kp_ => ((kp_.1 : Int), kp_.2.add, kp_.2.rem)))' % a
+                xpat, xty = '(%s, %s, %s)' % tuple(mangle(q_) for q_ in nm), 'Int × List Setting × List Setting'
+                benv[nm[0]] = 'int'; benv[nm[1]] = 'slist'; benv[nm[2]] = 'slist'
+            elif ta == 'pairs' and len(nm) == 2:
+                src = '((%s)%s.map (fun ab_ => ((ab_.1 : Int), (ab_.2 : Int))))' % (a, '.reverse' if rev else '')
+                xpat, xty = '(%s, %s)' % tuple(mangle(q_) for q_ in nm), 'Int × Int'
+                benv[nm[0]] = 'int'; benv[nm[1]] = 'int'
+            else:
+                raise Unsupported('loop ' + ast.unparse(it))
+            x = None
+        elif isinstance(rng, ast.Call) and isinstance(rng.func, ast.Name) and rng.func.id == 'range' and len(rng.args) == 1 and not rng.keywords:
             n = self.typed(rng.args[0], env, 'int')
             src, elem = '(Py.%s %s)' % ('rangeDesc' if rev else 'rangeAsc', n), 'int'
+            x = tgt.id
         elif not rev:
             src, elem = self.typed(it, env, 'slist'), 'setting'
+            x = tgt.id
         else:
             raise Unsupported('loop ' + ast.unparse(it))
         for n_ in ast.walk(ast.Module(body=st.body, type_ignores=[])):
-            if isinstance(n_, (ast.Break, ast.Continue, ast.Return)):
-                raise Unsupported('break/continue/return in a loop')
-        x = st.target.id
-        if x in env:
-            raise Unsupported('loop variable shadows an outer variable')
+            if isinstance(n_, (ast.Break, ast.Return)):
+                raise Unsupported('break/return in a loop')
+        if x is not None:
+            if x in env:
+                raise Unsupported('loop variable shadows an outer variable')
+            benv[x] = elem
+            xpat, xty = mangle(x), LEAN_T[elem]
         state = self.written(st.body, env)
         if not state:
             raise Unsupported('loop without effect')
         pre = self.pre(p)
         names = [mangle(v) for v in state]
         tys = [LEAN_T[env[v]] for v in state]
-        benv = dict(env); benv[x] = elem
+        if isinstance(tgt, ast.Tuple) or any(isinstance(n_, ast.Continue) for n_ in ast.walk(ast.Module(body=st.body, type_ignores=[]))):
+            # the general shape: state tuple (or single variable), destructured element, `continue` = the normal exit
+            tup = names[0] if len(names) == 1 else '(' + ', '.join(names) + ')'
+            q = '  ' * (ind + 2)
+            saved = getattr(self, 'loop_exits', None)
+            ex_ = lambda e2, i2: '  ' * i2 + '.ok %s' % tup
+            self.loop_exits = [(ex_, lambda e2, i2: (_ for _ in ()).throw(Unsupported('break')))]
+            try:
+                body = self.block(st.body, benv, ex_, ind + 2)
+            finally:
+                self.loop_exits = saved if saved is not None else []
+            return ('%s%s(List.foldlM (m := Except Exc) (fun (st_ : %s) (it_ : %s) =>\n%smatch st_, it_ with\n%s| %s, %s =>\n%s)\n%s  %s %s).bind fun st_ =>\n%smatch st_ with\n%s| %s =>\n%s'
+                    % (pre, p, ' × '.join(tys), xty, q, q, tup, xpat, body, p, tup, src, p, p, tup, K(env, ind)))
         if len(state) == 1:
             body = self.block(st.body, benv, lambda e2, i2: '  ' * i2 + '.ok %s' % names[0], ind + 2)
             return ('%s%s(List.foldlM (m := Except Exc) (fun (%s : %s) (%s : %s) =>\n%s)\n%s  %s %s).bind fun %s =>\n%s'
@@ -723,6 +852,7 @@ class M:
         q = '  ' * (ind + 2)
         saved = getattr(self, 'loop_exits', None)
         self.loop_exits = []            # a break/continue of an outer loop cannot be reached from here
+        x = tgt.id
         try:
             body = self.block(st.body, benv, lambda e2, i2: '  ' * i2 + '.ok %s' % tup, ind + 2)
         finally:
@@ -884,6 +1014,11 @@ class M:
             idx = None
             for i, st in enumerate(body):
                 if after_store and isinstance(st, ast.Assign) and len(st.targets) == 1 and ast.unparse(st.targets[0]) == after_store:
+                    idx = i
+                    break
+                if after_store and after_store.startswith('ifany:') and isinstance(st, ast.If) \
+                        and any(isinstance(x, ast.Assign) and len(x.targets) == 1 and ast.unparse(x.targets[0]) == after_store[6:]
+                                for x in ast.walk(st)):
                     idx = i
                     break
                 if after_store and after_store.startswith('if:') and isinstance(st, ast.If) and st.orelse \
